@@ -14,6 +14,8 @@ R19.4 unsigned-subtraction inventory: every overflow-checked `a - b` on the pars
       dominating guard that implies a >= b (pv/rules/subguard.py) or belongs to the reviewed table (function, count,
       reason).  A new unguarded subtraction is a violation (index/length underflow panics in debug builds and wraps
       in release builds).
+R19.5 = all C17 rules re-evaluated (the skip predicate used to count stack entries; a mismatch makes the LR action dispatcher
+      index past its arguments).
 R19.3 main-loop progress (LL): every iteration of parse_into's loop that does not leave the loop pops the parser stack,
       consumes a token or enters a handler (no idle iteration).
 """
@@ -218,3 +220,8 @@ def check(ctx):
               "`stack.last() == None` edge, which input_accepted() excludes)",
               "an iteration of the main parse loop can complete without popping the parser stack or entering an error "
               "handler: blocks %s" % path, where(pi))
+    # ---------------------------------------------------------------- R19.5 = C17's rules (added after seed C19-b)
+    # pop_n counts parse-tree-stack entries with the *effective* skip predicate; counting with the raw predicate pops too few
+    # symbols for a %skip token and the action dispatcher indexes past its arguments (panic)
+    from . import c17
+    c17.check(ctx)
